@@ -5,6 +5,7 @@ import (
 	"fmt"
 	"net/http"
 	"net/url"
+	"io"
 	"strings"
 
 	"github.com/fullstorydev/grpchan"
@@ -391,6 +392,61 @@ func suiteC12(r *Run) {
 			if got != want {
 				r.Violate("http/resolve/late-registration-not-routed", "runs the handler registered for that service and method", sprintf("%s after a late registration: ran %q, expected %q (err %v)", name, got, want, err), c, got)
 			}
+		}
+	}
+	// the same on the in-process channel: a name that was asked for before its service was registered resolves
+	// afterwards like any other (unary and stream API), and a miss stays a miss for names never registered
+	for iter := 0; iter < 6; iter++ {
+		var ran []string
+		ch := &inprocgrpc.Channel{}
+		a := synthSvc{name: "pkg.First", unary: []string{"Get"}, streams: []string{"Watch"}}
+		b := synthSvc{name: "pkg.Second", unary: []string{"Get", "Put"}, streams: []string{"Watch"}}
+		ch.RegisterService(a.desc(&ran), synthImpl{})
+		warm := []string{"/pkg.Second/Get", "/pkg.Second/Watch", "/pkg.First/Get"}[iter%3]
+		viaStream := iter >= 3
+		call := func(name string) (error, string) {
+			ran = ran[:0]
+			var err error
+			func() {
+				defer func() {
+					if p := recover(); p != nil {
+						err = fmt.Errorf("panic: %v", p)
+					}
+				}()
+				if strings.HasSuffix(name, "/Watch") {
+					var cs grpc.ClientStream
+					cs, err = ch.NewStream(context.Background(), &grpc.StreamDesc{StreamName: "Watch", ServerStreams: true, ClientStreams: true}, name)
+					if err == nil {
+						cs.CloseSend()
+						var m Msg
+						if e := cs.RecvMsg(&m); e != nil && e != io.EOF {
+							err = e
+						}
+					}
+				} else {
+					err = ch.Invoke(context.Background(), name, &Msg{}, &Msg{})
+				}
+			}()
+			return err, strings.Join(ran, "+")
+		}
+		_ = viaStream
+		call(warm)
+		ch.RegisterService(b.desc(&ran), synthImpl{})
+		for _, name := range []string{"/pkg.Second/Get", "/pkg.Second/Put", "/pkg.Second/Watch", "/pkg.First/Get", "/pkg.First/Watch"} {
+			err, got := call(name)
+			want := "U:" + name[1:]
+			if strings.HasSuffix(name, "/Watch") {
+				want = "S:" + name[1:]
+			}
+			c := map[string]interface{}{"transport": "inproc", "sequence": "register pkg.First; call " + warm + "; register pkg.Second; call " + name}
+			r.Eval(fmt.Sprint("inproc-register-late", warm, name), true)
+			r.Count("inproc:register-after-first-call")
+			if got != want {
+				r.Violate("inproc/resolve/late-registration-not-routed", "runs the handler registered for that service and method", sprintf("%s after a late registration (the same name had been called before it): ran %q, expected %q (err %v)", name, got, want, err), c, got)
+			}
+		}
+		if err, got := call("/pkg.Third/Get"); err == nil || got != "" {
+			r.Violate("inproc/resolve/unknown-not-unimplemented", "every other name yields Unimplemented", sprintf("/pkg.Third/Get: ran %q err %v", got, err), map[string]interface{}{"transport": "inproc"}, got)
 		}
 	}
 	_ = grpchantesting.MetadataNew
